@@ -151,8 +151,9 @@ func expandOrTerm(term *node, result [][]*node) [][]*node {
 			left := term.expandOr()
 			result = append(result, left...)
 		} else if term.isAndExpression() {
-			left := term.expandAnd()[0]
-			result = append(result, left)
+			// an AND term can expand to several alternatives (when it contains an OR): keep them all
+			left := term.expandAnd()
+			result = append(result, left...)
 		}
 	}
 	return result
